@@ -13,7 +13,7 @@ btable = run("benigntable.py")
 n = table.count("\n") - 2
 new = f'''## 13. Seeded breaking changes and which checks catch them
 
-{n} changes were produced in six rounds by fresh sub-agents that were given only the text of one property and a
+{n} changes were produced in seven rounds by fresh sub-agents that were given only the text of one property and a
 scratch git worktree of `/repo` (nothing from `/verif`), with the brief: break the property while the library still
 compiles and its existing suite still passes, in a way that needs something specific to manifest (from round 2 on
 they were also told what the earlier changes for that property had been, and to aim at cooperating sites, forgotten clauses,
@@ -27,7 +27,8 @@ exits 0) and records the outcome; nothing is ever committed to `/repo`.
 The translator alone (regenerated `Gen` files differ from the unchanged tree's, or a fact is not found) sees 22 of
 the {n}: the changes to tables, dispatch arms, constants, lock order and helper functions; all the others keep every
 generated definition and are decided by the correspondence run and the property predicates. First-contact detection
-(quick tier, concrete input, before any strengthening) was 31/40, 21/40, 21/40, 20/40, 25/40 and 26/40 in rounds 1 to 6.
+(quick tier, concrete input, before any strengthening) was 31/40, 21/40, 21/40, 20/40, 25/40, 26/40 and 21/40 in rounds 1 to 7 (each round's brief
+lists every earlier change for the property and asks for something different in kind, so later rounds are harder by construction).
 
 What each round's first run missed, and what was strengthened (all {n} are caught by the quick tier now, with a
 concrete failing input except where the table below says otherwise; `result.json` holds the re-run):
@@ -119,6 +120,27 @@ back, unusual call orders, faults in the middle of an operation, decoder-only in
 | `C15-r6a`, `C15-r6b` | `SetWriteDeadline` armed the transport at once and cut a control frame in progress; `ReadFrom` dropped bytes returned with `io.EOF` | a `net.Pipe` scenario: the data writer sets a short deadline while a ping is stuck in the transport; a data message streamed from an EOF-with-data source must be on the wire intact before the Close |
 | `C18-r6a`, `C18-r6b` | `Close()` reset the id counter; Printf-family calls without operands escaped `%` | ids unique across log rotation (Close / Switch); formats with `%%` and no operands |
 | `C19-r6a`, `C19-r6b` (no input) | errors classified by their `Cause()`; `&`-style sequences un-escaped in the encoded JSON | application errors that also expose a `Cause()`; strings with a literal backslash in front of `u0026` / `u003c` / `u003e` |
+
+**Round 7** (40 changes, 17 missed or caught by the thorough tier only; brief: exported helpers combined with the main path,
+arithmetic that fails only on large counts / many elements / long sessions, empty things, two different objects of the
+package used together, the legal extremes of the quantifier)
+
+| missed | why | strengthening |
+|---|---|---|
+| `C02-r7a`, `C02-r7b` | idle chunk streams evicted from the reader's table once it holds 64 (their header state is what compressed headers refer to); `DecodeMessage` re-applied a Set Chunk Size message to the reader | 65–2000 chunk streams on one connection followed by type-1/2/3 headers on the earlier ones; the application decodes what it received some messages later than the read loop got it, and decodes a relayed Set Chunk Size message |
+| `C03-r7a` (thorough only), `C03-r7b` | the reader's per-stream chunk counter narrowed to 16 bits (wraps after 65536 chunks); the chunk message header read with a single `Read` instead of `io.ReadFull` | a 70 000-chunk message (chunk size 1) in the quick tier; every other endpoint pair reads through a transport that hands bytes over in small pieces |
+| `C04-r7b` | the reader's per-stream chunk counter narrowed to 16 bits: a continuation chunk after exactly 65536 chunks is rejected as "fresh" | long sessions: thousands of requests on one connection, one long-lived peer writer with chunk size 1 / 7 / 128, windows of outstanding requests answered in rotating order |
+| `C06-r7a` | strict arrays decoded to their first 4096 elements, silently mis-sized | containers of 4095…70 000 elements: objects and ECMA arrays against the specification, strict arrays in the library's own layout (alone and inside an enclosing object whose later properties must survive) |
+| `C07-r7b` | the RSA public exponent of a JWK right-aligned into 8 bytes (an `e` longer than 8 octets panics, leading zeros miscounted) | keys whose integer fields have every length (RSA e / n of 0..70 octets, EC coordinates, oct), also embedded as `jwk` in a protected header |
+| `C08-r7a`, `C08-r7b` | `ExpectPacket` / `ExpectMessage` retried after a transport error that calls itself temporary (and went on out of frame); `NewDemuxer` wrapped the reader in a read-ahead buffer | a transport that fails ONCE with a timeout / `EAGAIN` / `EINTR` / deadline error at every offset of a session and then carries on: the operation in progress returns that error; the FLV stream is handed from one demuxer object to the next after the header and after every second tag |
+| `C09-r7b` | `Close` seeks back and rewrites the header's type flags when the writer is seekable | the muxer writes in turn to a plain buffer and to a seekable file-like writer that is read after `Close` |
+| `C12-r7a` (thorough only) | a decoded SPS/PPS equal to the one just before it is consumed but not appended | parameter sets that repeat (equal to the previous one, to an earlier one, header-only) |
+| `C13-r7b` | `Conn.write` no longer clears the transport's write deadline when the connection has none: a data message inherits the expired deadline of the pong sent a second earlier | the fake transports ENFORCE the write deadline against a virtual clock; data writes (every entry point) five seconds after a pong / ping / close reply / application deadline |
+| `C14-r7a` | `Dial` read the 101 response through a temporary buffered reader and lost the frames that arrived with it | every third client-role reader run gets its connection from `Dialer.Dial` over a scripted transport whose first read carries the response AND the frame stream |
+| `C15-r7a`, `C15-r7b` | the message reader took a ping handled between two fragments for a protocol violation; the 64-bit length form wrote only its low word into a buffer the `Upgrade` response had used | every interleaving's wire is also read by the library at the other end (`ReadMessage` / message reader in 1–7 byte pieces); connections obtained from `Upgrade` and `Dial` write their FIRST message in every length form with pingers running |
+| `C17-r7a`, `C17-r7b` | start markers searched in non-overlapping 1024-byte windows; a new `WriteTo` forgot the bytes `Read` had buffered | comments starting at every offset around 512…8192 of a marker-free run (from the start, after a string, after a comment); mixed consumption: short `Read`s, then `io.Copy` / a `bufio.Reader`'s `WriteTo` |
+| `C19-r7a` | the JSONP callback taken from `FormValue` (posted form fields win over the query) | the same resource requested with POST / PUT / PATCH / DELETE and form, JSON and multipart bodies carrying a `callback` field |
+| `C20-r7b` | the counter chosen by a type switch on the source: an object with both counters always meters requests | one source object with differing request and byte counters handed to `NewKrps` and `NewKbps`; public `Average()` of both within measured bounds |
 
 {table}
 ### 13b. Behaviour-preserving changes: what the checks say when the properties still hold
